@@ -8,6 +8,7 @@ from ..env import gfapy, GfapyError
 from ..runner import Part, Violation
 
 ID = "C11"
+ATHERIS = ['graphs']  # parts also driven by libFuzzer in the thorough tier (vf/runner.py: all_parts)
 RULE = ("part 'table' (exhaustive): every E line over (o1,o2) in {+,-}^2 x interval kind of each side in "
         "{empty prefix, prefix, whole, inner, empty inner, suffix, empty suffix} (196 cells) x {E after its "
         "segments, E before its segments} x {two segments, self-edge}, and every L, C, G line over the 4 "
